@@ -959,16 +959,19 @@ where
                 let seen = Mutex::new(Vec::new());
                 let mut acc_out = 0u64;
                 let r = call(ctx, tid, CallKind::Fold, n, || {
-                    let acc = it.fold(n, 0u64, |acc, x| {
+                    // the accumulator owns the element visited last: a fold that mishandles its
+                    // accumulator when the closure panics destroys that element twice or never
+                    let (acc, last) = it.fold(n, (0u64, None), |(acc, prev), x| {
                         let o = x.obs();
                         {
                             let _p = alloc::pause();
                             seen.lock().unwrap_or_else(|e| e.into_inner()).push((None, o));
                         }
                         closure_tick(ctx);
-                        drop(x);
-                        acc.wrapping_add(fold_term(&o))
+                        drop(prev);
+                        (acc.wrapping_add(fold_term(&o)), Some(x))
                     });
+                    drop(last);
                     acc_out = acc;
                     Res::Unit
                 });
